@@ -163,7 +163,7 @@ var sizeGen = rapid.SampledFrom([]string{"tiny", "small", "small", "medium", "me
 
 // TestC09Readers: readers racing a sequence of saves only ever see complete snapshots.
 func TestC09Readers(t *testing.T) {
-	col := ev.Get("C09", "readers", "a saver goroutine (in 30% of the cases two concurrent savers) saves a generated sequence of 3-12 snapshots (size classes from 1 job to ~1500 jobs / several MB) with the real JsonDataStore (store file reached directly, through a data.json that is a symbolic link to a file elsewhere, or through a symlinked store directory; in a third of the cases TMPDIR points to another file system) while 2-6 reader goroutines alternate raw os.ReadFile+encoding/json and JsonDataStore.Load; every observation must be 'absent' (only before the first save returned) or decode completely to exactly one snapshot passed to Save (index + content hash), with index >= last save that had returned before the observation began and <= last save started; after the sequence Load returns exactly the last snapshot; in half of the cases a snapshot without jobs is saved last, by the same store or by a new one on the same directory, and must replace what was there; non-trivial = an observation that overlapped a save in progress; distinct by (seed,size,observation count)")
+	col := ev.Get("C09", "readers", "a saver goroutine (in 30% of the cases 2, 4 or 8 stores of the process saving concurrently, several times over) saves a generated sequence of 3-12 snapshots (size classes from 1 job to ~1500 jobs / several MB) with the real JsonDataStore (store file reached directly, through a data.json that is a symbolic link to a file elsewhere, or through a symlinked store directory; in a third of the cases TMPDIR points to another file system) while 2-6 reader goroutines alternate raw os.ReadFile+encoding/json and JsonDataStore.Load; every observation must be 'absent' (only before the first save returned) or decode completely to exactly one snapshot passed to Save (index + content hash), with index >= last save that had returned before the observation began and <= last save started; after the sequence Load returns exactly the last snapshot; in half of the cases a snapshot without jobs is saved last, by the same store or by a new one on the same directory, and must replace what was there; non-trivial = an observation that overlapped a save in progress; distinct by (seed,size,observation count)")
 	rapid.Check(t, func(rt *rapid.T) {
 		seed := rapid.Int64Range(1, 1<<40).Draw(rt, "seed")
 		size := sizeGen.Draw(rt, "size")
@@ -262,15 +262,20 @@ func TestC09Readers(t *testing.T) {
 			// observation must still be one complete snapshot; no order between the two is promised
 			atomic.StoreInt64(&started, int64(count-1))
 			var sw sync.WaitGroup
-			for s := 0; s < 2; s++ {
+			// (2, 4 or 8 stores in this process, each saving its share of the snapshots several times over, so that
+			// encodings and writes of different stores keep overlapping)
+			nSavers := rapid.SampledFrom([]int{2, 2, 4, 8}).Draw(rt, "concurrentSavers")
+			for s := 0; s < nSavers; s++ {
 				sw.Add(1)
 				go func(s int) {
 					defer sw.Done()
 					sst, _ := store.NewJSONDataStore(dir)
-					for i := s; i < count; i += 2 {
-						if err := sst.Save(snap.Make(seed, i, size)); err != nil {
-							fail("Save failed: " + strip(err, dir))
-							return
+					for round := 0; round < 4; round++ {
+						for i := s % count; i < count; i += nSavers {
+							if err := sst.Save(snap.Make(seed, i, size)); err != nil {
+								fail("Save failed: " + strip(err, dir))
+								return
+							}
 						}
 					}
 				}(s)
@@ -287,7 +292,7 @@ func TestC09Readers(t *testing.T) {
 			if err != nil {
 				rt.Fatalf("after the last save: %v", err)
 			}
-			if idx != count-1 && !(twoSavers && idx == count-2) {
+			if idx != count-1 && !(twoSavers && idx >= 0) {
 				rt.Fatalf("after the save of snapshot %d returned, the next load returns snapshot %d", count-1, idx)
 			}
 		}
